@@ -233,6 +233,21 @@ def td_model_class(kind):
             self.add_coupling(Jz, 0, 'Sz', 0, 'Sz', 1)
             self.add_onsite(-hz * (1.0 + 2.0 * tm), 0, 'Sz')
 
+    if kind.endswith('-inplace'):
+        from tenpy.models.model import CouplingModel
+
+        class DrivenXXZInPlace(DrivenXXZ):
+            """same Hamiltonian; update_time_parameter uses the documented freedom to update `self` in place and return it"""
+
+            def update_time_parameter(self, new_time):
+                self.options['time'] = new_time
+                CouplingModel.__init__(self, self.lat, explicit_plus_hc=self.explicit_plus_hc)
+                self.init_terms(self.options)
+                self.init_H_from_terms()  # new self.H_MPO and self.H_bond
+                return self
+
+        _TD_MODELS[kind] = DrivenXXZInPlace
+        return DrivenXXZInPlace
     _TD_MODELS[kind] = DrivenXXZ
     return DrivenXXZ
 
@@ -241,7 +256,7 @@ def make_model(prog):
     L, bc = prog['L'], prog['bc']
     kind = prog['model']
     if prog['td'] or kind == 'driven':
-        cls = td_model_class('xxz')
+        cls = td_model_class('xxz-inplace' if prog.get('inplace') else 'xxz')
         return cls(dict(L=L, bc_MPS=bc, Jxx=1.0, Jz=0.5, hz=0.25, conserve=prog.get('conserve', 'Sz')))
     if kind == 'xxz':
         from tenpy.models.xxz_chain import XXZChain
